@@ -69,7 +69,13 @@ def run(ctx):
 
     # ---- selection -------------------------------------------------------------------------------------
     ctx.rule("C09.selection", "pairs returned by auth_types_for_event == specification's auth events selection, for every scenario")
-    dex = D.Dex(w.lookup, adt_discr=w.adt_discr, unroll=1, inline=lambda n: "{closure" in n, effects=lambda n: n.endswith("Vec::<T, A>::push"))
+    def inline_sel(n):
+        # closures, and private helpers of the module that receive the result vector by `&mut` (a push moved into a helper looks the same)
+        if "{closure" in n:
+            return True
+        g = w.lookup(n)
+        return bool(g) and n.startswith(EA) and "&'a mut alloc::vec::Vec<(ruma_events::enums::StateEventType" in (g.get("sig") or "").replace("&mut", "&'a mut")
+    dex = D.Dex(w.lookup, adt_discr=w.adt_discr, unroll=1, inline=inline_sel, effects=lambda n: n.endswith("Vec::<T, A>::push"))
     f = w.fn(EA + "auth_types_for_event")
     paths = dex.paths(f, [D.sym(x) for x in ["ty", "sender", "state_key", "content", "rules"]])
     okp = [p for p in paths if p.kind == "ret" and U.is_ok(p.ret)]
